@@ -125,6 +125,9 @@ type Scenario struct {
 	// seconds before the Workstream is constructed. No API thread is started.
 	BootStates []string `json:"bootStates,omitempty"`
 	BootAgeSec int      `json:"bootAge,omitempty"`
+	// SlowReads: a Read issued by an API caller parks a second time after the store has answered (kind RR), so that
+	// everything else can happen between the answer and the caller acting on it.
+	SlowReads bool `json:"slowReads,omitempty"`
 	// CrashAgeSec (crash scenarios): the restart after a crash happens this many seconds (plus one) after the crash instant.
 	CrashAgeSec int  `json:"crashAge,omitempty"`
 	NoRecovery  bool `json:"noRecovery,omitempty"`
